@@ -1583,3 +1583,18 @@ def _clipped_shape_stays_resolved(repo, ob, failure):
 GENERATORS.insert(0, ("C08.clip.registered", _clipped_shape_stays_resolved))
 GENERATORS.insert(0, ("C10.clip.registered", _clipped_shape_stays_resolved))
 GENERATORS.insert(0, ("C12.clip.registered", _clipped_shape_stays_resolved))
+
+
+def _reuse_clip_box(repo, ob, failure):
+    """the extent of a <reuse> is the extent of the instance it emitted (a clip-path on the <reuse> is not copied to the instance)"""
+    import re as _re
+    doc = ('<svg><clipPath id="c"><rect xy="0" wh="5"/></clipPath><specs><rect id="a" wh="20 10"/></specs>'
+           '<reuse href="#a" x="0" y="0" clip-path="url(#c)"/><reuse href="#a" x="30" y="0" clip-path="url(#c)"/></svg>')
+    r = run_svgdx(repo, doc, args=("--no-auto-styles", "--border", "0"))
+    m = _re.search(r'viewBox="([^"]*)"', r["out"])
+    if r["rc"] == 0 and m and "clip-path" not in r["out"].split("</clipPath>")[-1] and m.group(1) != "0 0 50 10":
+        return {"input": doc, "args": ["--no-auto-styles", "--border", "0"], "observed": "viewBox=%r while both instances are drawn unclipped (x 0..20 and 30..50)" % m.group(1), "expected": "viewBox='0 0 50 10'"}
+    return None
+
+
+GENERATORS.insert(0, ("C08.clip.reuse_box", _reuse_clip_box))
